@@ -24,6 +24,18 @@ BASE_TYPES: Dict[str, Tuple[int, bool]] = {
     "DWORD": (4, False), "ULONG": (4, False), "LONG": (4, True), "UINT": (4, False), "INT": (4, True),
     "ULONGLONG": (8, False), "LONGLONG": (8, True), "QWORD": (8, False), "DWORD64": (8, False),
     "ULONG64": (8, False),
+    # stdint / kernel / IDA spellings that dissect.cstruct predefines as typedefs of the types above
+    "int8_t": (1, True), "uint8_t": (1, False), "int16_t": (2, True), "uint16_t": (2, False),
+    "int32_t": (4, True), "uint32_t": (4, False), "int64_t": (8, True), "uint64_t": (8, False),
+    "__u8": (1, False), "__u16": (2, False), "__u32": (4, False), "__u64": (8, False),
+    "__s8": (1, True), "__s16": (2, True), "__s32": (4, True), "__s64": (8, True),
+    "u1": (1, False), "u2": (2, False), "u4": (4, False), "u8": (8, False),
+    "_BYTE": (1, False), "_WORD": (2, False), "_DWORD": (4, False), "_QWORD": (8, False),
+    "short": (2, True), "ushort": (2, False), "int": (4, True), "uint": (4, False), "long": (4, True), "ulong": (4, False),
+    "unsigned char": (1, False), "unsigned short": (2, False), "unsigned int": (4, False), "unsigned long": (4, False),
+    "signed char": (1, True), "signed short": (2, True), "signed int": (4, True), "signed long": (4, True),
+    "INT8": (1, True), "UINT8": (1, False), "INT16": (2, True), "UINT16": (2, False), "INT32": (4, True), "UINT32": (4, False),
+    "INT64": (8, True), "UINT64": (8, False),
 }
 
 
